@@ -3,8 +3,12 @@
 """Gen/GatedRules.v: every `notices contains result.notice(rego.metadata.chain()) if <body>` rule of the
 bundled lint rules (bundle/regal/rules/**, non-test files), with the METADATA description / custom.severity
 in front of it and its body translated into the small condition language of Model/Notices.v.  Also the gated
-rules that define `aggregate` / `aggregate_report` (main.rego only gates `report`).  Regenerated on every C19 check."""
-import os, re, sys
+rules that define `aggregate` / `aggregate_report` (main.rego only gates `report`), and the predicates of
+bundle/regal/capabilities/capabilities.rego as written (one row per `<predicate> if <condition>` rule).
+Gen/GatedRules.json: the capability dimensions (built-in functions, future keywords, features) named by any of
+these conditions -- tools/props/c19.py generates capabilities files over all subsets of them.
+Regenerated on every C19 check."""
+import json, os, re, sys
 sys.path.insert(0, os.path.join(os.path.dirname(os.path.abspath(__file__)), '..', 'lib'))
 import vlib
 import yaml
@@ -50,6 +54,43 @@ def literal(expr):
     else:
         atom = 'AUnknown %s' % cstr(e)
     return '(%s, %s)' % ('true' if neg else 'false', atom), expr.strip()
+
+
+def cap_pred_rules(dims):
+    """capabilities.rego: `<name> if <condition>` rules -> rows (pred, clause), source order; names the model does not
+    know are listed apart"""
+    path = os.path.join(vlib.REPO, 'bundle', 'regal', 'capabilities', 'capabilities.rego')
+    rows, other = [], []
+    try:
+        lines = open(path, errors='replace').read().split('\n')
+    except OSError:
+        return [('PHasIf', 'CUnknown %s' % cstr('capabilities.rego not found'), 'missing file')], []
+    for line in lines:
+        m = re.match(r'([a-z0-9_]+) if (.*)$', line)
+        if not m:
+            continue
+        name, cond = m.group(1), m.group(2).strip()
+        if name not in PREDS:
+            other.append(name)
+            continue
+        k = re.fullmatch(r'"([^"]*)" in config\.capabilities\.future_keywords', cond)
+        f = re.fullmatch(r'"([^"]*)" in config\.capabilities\.features', cond)
+        b = re.fullmatch(r'"([^"]*)" in object\.keys\(config\.capabilities\.builtins\)', cond)
+        if k:
+            clause = 'CKeyword %s' % cstr(k.group(1))
+            dims['future_keywords'].add(k.group(1))
+        elif f:
+            clause = 'CFeature %s' % cstr(f.group(1))
+            dims['features'].add(f.group(1))
+        elif b:
+            clause = 'CBuiltin %s' % cstr(b.group(1))
+            dims['builtins'].add(b.group(1))
+        elif cond in PREDS:
+            clause = 'CPred %s' % PREDS[cond]
+        else:
+            clause = 'CUnknown %s' % cstr(cond)
+        rows.append((PREDS[name], clause, line.strip()))
+    return rows, other
 
 
 def metadata_before(lines, i):
@@ -107,6 +148,15 @@ def main():
                 rows.append((cat, title, desc, sev if isinstance(sev, str) else '', body, src))
             if found and re.search(r'^aggregate(_report)?\b', text, re.M):
                 with_agg.append((cat, title))
+    dims = {'builtins': set(), 'future_keywords': set(), 'features': set()}
+    for _, _, _, _, _, src in rows:
+        for e in src:
+            for kind, pat in (('builtins', r'"([^"]*)" in object\.keys\(config\.capabilities\.builtins\)'),
+                              ('features', r'"([^"]*)" in config\.capabilities\.features'),
+                              ('future_keywords', r'"([^"]*)" in config\.capabilities\.future_keywords')):
+                for m in re.finditer(pat, e):
+                    dims[kind].add(m.group(1))
+    prules, other = cap_pred_rules(dims)
     out = ['(* GENERATED by tools/gen/gatedrules.py from bundle/regal/rules/**/*.rego -- do not edit *)',
            'From Regal Require Import Base.Str Model.Notices.', '',
            '(* one row per `notices` rule: category, title, description, severity, body *)',
@@ -116,7 +166,13 @@ def main():
                           for c, t, desc, sev, body, src in rows))
     out += ['].', '', '(* gated rules that also define aggregate / aggregate_report (main.rego gates only `report`) *)',
             'Definition gated_with_aggregate : list (str * str) := [' +
-            '; '.join('(%s, %s)' % (cstr(c), cstr(t)) for c, t in with_agg) + '].', '']
+            '; '.join('(%s, %s)' % (cstr(c), cstr(t)) for c, t in with_agg) + '].', '',
+            '(* bundle/regal/capabilities/capabilities.rego: one row per `<predicate> if <condition>` rule *)',
+            'Definition cap_pred_rules : list (cap_pred * pred_clause) := [',
+            ';\n'.join('  (* %s *)\n  (%s, %s)' % (src.replace('*)', '* )'), p, c) for p, c, src in prules), '].', '']
+    vlib.write_if_changed(os.path.join(vlib.COQ, 'theories', 'Gen', 'GatedRules.json'),
+                          json.dumps({'dims': {k: sorted(v) for k, v in dims.items()}, 'other_capability_rules': sorted(set(other))},
+                                     indent=1, sort_keys=True) + '\n')
     vlib.write_if_changed(os.path.join(vlib.COQ, 'theories', 'Gen', 'GatedRules.v'), '\n'.join(out))
 
 
